@@ -18,7 +18,7 @@ LEVEL = {
     "C09": "Deductive proof (Verus) of the real calculate_hmac_secret, make_hmac_secret, make_prf, get_prf, make_extensions, get_extensions and of both ceremonies: every PRF output is HMAC-SHA-256 (uninterpreted) keyed with the verification-gated secret iff the user was verified (performed UV at assertion, requested-and-checked UV at registration), enabled iff secrets were stored, nothing stored or output without the capability; client-side: pre-hashed inputs must be 32 bytes, per-credential inputs rejected at registration. The salt prefix is checked by a bounded Kani harness on the real source file. Partial: select_salts and the client's get_ctap_extension are assumed / not covered.",
     "C10": "Deductive proof (Verus), for every string and every well-formed sorted table: no lookup panics, public_suffix computes the publicsuffix.org rule walk over the table's trie (normal / wildcard / exception rules, fallback *), the binary search finds a label iff a sibling has it, results are label-aligned suffixes, eTLD+1 has exactly one more label, empty labels are rejected; well-formedness and sortedness of the shipped table are established by a verified checker compiled and run on the real constants. Partial: that the table encodes exactly the rules of public_suffix_list.dat is not covered.",
     "C11": "Deductive proof (Verus): is_passkey_discoverable equals the capability table, get_info reports rk truthfully, make_credential stores the user handle exactly when discoverable and refuses rk on a non-discoverable-only store, get_assertion returns a user handle exactly when the credential stores one.",
-    "C12": "Complete Kani harnesses (all u8) for flag validity plus Verus proof of the constructor / setters. Partial: decoding is not decidable here.",
+    "C12": "Verus proof of the constructor / setters (AT / ED set exactly with their section, 65535 limit) and of the real decoder bodies from_slice / from_reader (37-byte guard, reserved bits, header bytes, big-endian counter, section presence iff flag, truncated / missing section rejected, credential id bytes) over trusted Cursor / ciborium models; complete Kani harness (all u8) for flag validity. Partial: the encoder to_vec is an iterator chain, checked only by a bounded Kani harness (thorough tier), and CBOR contents of key / extensions are not covered.",
     "C13": "Status-byte clauses only: complete loop-free Kani harnesses over all 256 bytes, and Verus proof of the client's status mapping. CBOR clauses are not decidable.",
     "C15": "Deductive proof (Verus) of panic-freedom (index / slice / overflow / unwrap / unreachable) of the hand-written decoders of untrusted input: CTAPHID receiver for any packet length and sequence, U2F raw request decoder. Other decoders (CBOR, JSON, authenticator data, COSE) are outside both verifiers' reach and are listed as not covered.",
     "C16": "Deductive proof (Verus): header layouts, size check, the receiver's step relation for every 64-byte packet, and the reassembly and interleaving theorems for all payloads 0..7609 and all schedules (lemmas over handle_packet's own postcondition). The sender loop is checked by bounded Kani harnesses in the thorough tier.",
